@@ -13,6 +13,11 @@ import (
 	"github.com/gopacket/gopacket"
 
 	"github.com/scionproto/scion/pkg/slayers"
+	"github.com/scionproto/scion/pkg/slayers/path"
+	"github.com/scionproto/scion/pkg/slayers/path/empty"
+	"github.com/scionproto/scion/pkg/slayers/path/epic"
+	"github.com/scionproto/scion/pkg/slayers/path/onehop"
+	"github.com/scionproto/scion/pkg/slayers/path/scion"
 
 	"verif/mc"
 )
@@ -110,7 +115,7 @@ func c18Seeds() []c18seed {
 		{"tcp", 6, rep(9, 0x66)},
 	}
 	hbhOpts := []wsOpt{{Type: 1, Data: []byte{0, 0}}, {Type: 0xfd, Data: []byte{1, 2, 3}}, {Type: 0}} // 4+5+1 = 10 (+2)
-	e2eOpts := []wsOpt{c18SPAO(0x00030011, 0, 0x0102030405, rep(16, 0xa7)), {Type: 1, Data: nil}}        // 30+2 = 32 (+2) -> pad
+	e2eOpts := []wsOpt{c18SPAO(0x00030011, 0, 0x0102030405, rep(16, 0xa7)), {Type: 1, Data: nil}}     // 30+2 = 32 (+2) -> pad
 	e2eOpts = append(e2eOpts, wsOpt{Type: 0}, wsOpt{Type: 0})
 	var seeds []c18seed
 	k := 0
@@ -220,13 +225,18 @@ var c18ScmpMin = map[uint8]int{1: 4, 2: 4, 4: 4, 5: 16, 6: 24, 128: 4, 129: 4, 1
 
 // decCase runs one byte string through the real layer decoders. full: additionally through gopacket.NewPacket.
 func (e *c18env) decCase(in []byte, w *c18worker, fam c18ctx, full bool) {
+	if e.viol.Load() >= 3 {
+		return // the run has failed already; do not pile work on a broken decoder (it may have gone quadratic)
+	}
 	w.n++
 	sc, _ := wsScanSCION(in)
 	var err, err2 error
 	fresh := &slayers.SCION{}
+	// private copies with cap == len: decoders alias their input, Raw.SerializeTo rewrites the meta word in place,
+	// and any read beyond the end of the data must fault instead of silently seeing scratch bytes
 	w.b1 = append(w.b1[:0], in...)
 	w.b2 = append(w.b2[:0], in...)
-	data, data2 := w.b1, w.b2
+	data, data2 := w.b1[:len(in):len(in)], w.b2[:len(in):len(in)]
 	if p := mc.Safely(func() { err = fresh.DecodeFromBytes(data, &c18fb{}) }); p != nil {
 		e.bad("dec-panic:SCION", fmt.Sprintf("[%s] %x: %v", fam, in, p))
 		return
@@ -317,7 +327,9 @@ func (e *c18env) decLayer(name string, rest []byte, fresh, rec c18dl, mustReject
 	w *c18worker, fam c18ctx, truncOK bool) bool {
 	var err, err2 error
 	fb, fb2 := &c18fb{}, &c18fb{}
-	d1, d2 := append([]byte{}, rest...), append([]byte{}, rest...)
+	d1, d2 := make([]byte, len(rest)), make([]byte, len(rest)) // cap == len
+	copy(d1, rest)
+	copy(d2, rest)
 	if p := mc.Safely(func() { err = fresh.DecodeFromBytes(d1, fb) }); p != nil {
 		e.bad("dec-panic:"+name, fmt.Sprintf("[%s] %x: %v", fam, rest, p))
 		return false
@@ -494,6 +506,158 @@ func (e *c18env) decChain(rest []byte, next uint8, w *c18worker, fam c18ctx) {
 			return
 		}
 	}
+}
+
+// decPaths drives the path codecs directly (the SCION layer only ever hands them 4-byte aligned slices): every
+// path value of the encoder direction, cut to every length and extended by up to 5 trailing bytes, through every
+// path decoder. Accept iff the documented length fits (empty path: iff no bytes).
+func (e *c18env) decPaths() int64 {
+	type item struct {
+		p  wsPath
+		nm string
+	}
+	var items []item
+	for _, sh := range c18Shapes(true) {
+		for fill := 0; fill < 3; fill++ {
+			items = append(items, item{c18MkSCION(wsSCION, sh, uint8(fill), uint8(fill*2), fill), "scion"})
+			items = append(items, item{c18MkSCION(wsEPIC, sh, uint8(fill), uint8(fill*2), fill), "epic"})
+		}
+	}
+	for fill := 0; fill < 3; fill++ {
+		items = append(items, item{c18MkOneHop(fill), "onehop"})
+	}
+	var n atomic.Int64
+	var acc, rej atomic.Int64
+	mc.ParallelFor(len(items), func(ii int) {
+		it := items[ii]
+		full := make([]byte, it.p.len()+5)
+		it.p.put(full)
+		for i := it.p.len(); i < len(full); i++ {
+			full[i] = 0xee
+		}
+		var cnt int64
+		for L := 0; L <= len(full); L++ {
+			for dec := 0; dec < 5; dec++ {
+				in := make([]byte, L)
+				copy(in, full)
+				orig := append([]byte{}, in...)
+				var pp path.Path
+				switch dec {
+				case 0:
+					pp = &scion.Raw{}
+				case 1:
+					pp = &scion.Decoded{}
+				case 2:
+					pp = &onehop.Path{}
+				case 3:
+					pp = &epic.Path{}
+				case 4:
+					pp = empty.Path{}
+				}
+				// documented length requirement of decoder `dec` on these bytes
+				need, valid := 0, true
+				mo := 0
+				var mask []byte
+				switch dec {
+				case 0, 1, 3:
+					if dec == 3 {
+						mo = 16
+					}
+					need = mo + 4
+					if L >= need {
+						m := specMeta(binary.BigEndian.Uint32(orig[mo:]))
+						valid = m.valid()
+						need += 8*m.numINF() + 12*m.numHops()
+					}
+				case 2:
+					need = 32
+				case 4:
+					valid = L == 0
+				}
+				cnt++
+				var err error
+				if p := mc.Safely(func() { err = pp.DecodeFromBytes(in) }); p != nil {
+					e.bad(fmt.Sprintf("dec-panic:path-codec-%d", dec), fmt.Sprintf("%s bytes %x: %v", it.nm, orig, p))
+					continue
+				}
+				if L < need && err == nil {
+					e.bad(fmt.Sprintf("dec-accepts-overlong:path-codec-%d", dec), fmt.Sprintf("%s: %d bytes given, %d declared: %x", it.nm, L, need, orig))
+					continue
+				}
+				if err != nil {
+					rej.Add(1)
+					continue
+				}
+				if !valid {
+					continue // acceptance of invalid segment layouts is C19's business
+				}
+				acc.Add(1)
+				if dec == 4 {
+					continue
+				}
+				if pp.Len() != need {
+					e.bad(fmt.Sprintf("dec-field:path-codec-%d:Len", dec), fmt.Sprintf("%s: Len()=%d documented %d", it.nm, pp.Len(), need))
+					continue
+				}
+				out := make([]byte, need)
+				if p := mc.Safely(func() { err = pp.SerializeTo(out) }); p != nil || err != nil {
+					e.bad(fmt.Sprintf("reserialize-fails:path-codec-%d", dec), fmt.Sprintf("%s %x: %v %v", it.nm, orig, p, err))
+					continue
+				}
+				mask = bytes.Repeat([]byte{0xff}, need)
+				o := mo
+				if dec != 2 {
+					m := specMeta(binary.BigEndian.Uint32(orig[mo:]))
+					mask[o+1] = 0x03
+					o += 4
+					for i := 0; i < m.numINF(); i++ {
+						mask[o], mask[o+1] = 3, 0
+						o += 8
+					}
+					for i := 0; i < m.numHops(); i++ {
+						mask[o] = 3
+						o += 12
+					}
+				} else {
+					mask[0], mask[1], mask[8], mask[20] = 3, 0, 3, 3
+				}
+				if j := c18MaskedEqual(out, orig, mask); j >= 0 {
+					e.bad(fmt.Sprintf("reserialize-differs:path-codec-%d", dec), fmt.Sprintf("%s byte %d in %x out %x", it.nm, j, orig[:need], out))
+				}
+			}
+		}
+		// info and hop field codecs on every length
+		for L := 0; L <= 14; L++ {
+			var inf path.InfoField
+			var hf path.HopField
+			b := make([]byte, L)
+			for i := range b {
+				b[i] = byte(0x91 + i*ii)
+			}
+			var e1, e2 error
+			if p := mc.Safely(func() { e1 = inf.DecodeFromBytes(b); e2 = hf.DecodeFromBytes(b) }); p != nil {
+				e.bad("dec-panic:info/hop-field", fmt.Sprintf("%x: %v", b, p))
+			}
+			if (e1 == nil) != (L >= 8) || (e2 == nil) != (L >= 12) {
+				e.bad("dec-accepts-overlong:info/hop-field", fmt.Sprintf("%d bytes: info err=%v hop err=%v", L, e1, e2))
+			}
+			if e1 == nil && c18InfoBack(inf) != wsGetInfo(b) {
+				e.bad("dec-field:InfoField", fmt.Sprintf("%x", b))
+			}
+			if e2 == nil && c18HopBack(hf) != wsGetHop(b) {
+				e.bad("dec-field:HopField", fmt.Sprintf("%x", b))
+			}
+			cnt += 2
+		}
+		n.Add(cnt)
+		e.r.CaseBulk(cnt, cnt)
+	})
+	if acc.Load() > 0 && rej.Load() > 0 {
+		e.r.Outcome("path-codec-accepted")
+		e.r.Outcome("path-codec-rejected")
+	}
+	e.r.Extra["path_codec_direct"] = map[string]int64{"accepted": acc.Load(), "rejected": rej.Load()}
+	return n.Load()
 }
 
 var c18ByteVals = func() [][2]int { // (mode, value): mode 0 = set, 1 = xor
@@ -821,6 +985,7 @@ func TestC18(t *testing.T) {
 	timed("enc_hosts", func() { r.Extra["enc_host_cases"] = e.encHosts() })
 	timed("enc_ext", func() { r.Extra["enc_extension_cases"] = e.encExt() })
 	timed("enc_l4", func() { r.Extra["enc_l4_cases"] = e.encL4() })
+	timed("dec_paths", func() { r.Extra["dec_path_codec_cases"] = e.decPaths() })
 	timed("dec", e.dec)
 	r.Extra["phase_seconds"] = phase
 	r.Sample(map[string]any{"encoder_value": fmt.Sprintf("%+v", *c18BaseHdr(0, c18MkSCION(wsSCION, [3]uint8{1, 2, 0}, 1, 2, 2)))})
@@ -838,5 +1003,5 @@ func TestC18(t *testing.T) {
 		"a recycling layer (RecyclePaths) keeps unknown path types as opaque bytes; a fresh layer rejects them; both accepted",
 		"header values outside the wire domain (FlowID >= 2^20, option data > 255 bytes, address length != DL/SL) are not header values",
 	}
-	r.Finish(8)
+	r.Finish(10)
 }
